@@ -13,6 +13,7 @@ from __future__ import annotations
 import json
 
 import numpy as np
+from feems.types_for_feems import TypePower
 
 from .. import core, comps, plants
 from ..core import enc, dec, close, frac, call_with_oracle
@@ -55,8 +56,9 @@ def gen_case(rng, idx):
         if kind == "genset":
             rg = float(np.round(rated * rng.uniform(0.85, 0.97), 0))
             case["generator"] = {"rated": rg, "speed": 1000.0, "curve": comps.gen_accepted_curve(rng, rg, lo=0.9)}
-            if rng.random() < 0.3:
-                case["rectifier"] = {"rated": rg, "curve": comps.gen_accepted_curve(rng, rg, lo=0.95)}
+            if rng.random() < 0.4:
+                rr = float(np.round(rg * float(rng.choice([1.0, 1.0, 1.2, 1.5, 2.0])), 0))      # a rectifier is often rated above its generator
+                case["rectifier"] = {"rated": rr, "curve": comps.gen_accepted_curve(rng, rr, lo=0.95)}
             top = rg
         elif kind == "geared":
             case["gearbox"] = {"rated": rated, "curve": comps.gen_accepted_curve(rng, rated, lo=0.93)}
@@ -147,7 +149,7 @@ def run_case(ctx, case, model=True):
         p = float(P[t])
         if kind in ("engine", "genset", "geared"):
             load = float(np.atleast_1d(rp.load_ratio)[t])
-            pe = load * eng.rated_power
+            pe = load * eng_spec["rated"]
             bs = float(np.atleast_1d(rp.bsfc_g_per_kWh)[t]) if np.ndim(rp.bsfc_g_per_kWh) else float(rp.bsfc_g_per_kWh)
             main = float(np.broadcast_to(fl[0][2], (n,))[t])
             if not close(main, bs * pe / 3.6e6, scale=eng.rated_power * 250 / 3.6e6):
@@ -172,18 +174,18 @@ def run_case(ctx, case, model=True):
             elif not close(bs, pts[0]):
                 ctx.fail("predicate", "single-value-not-constant", f"bsfc {bs} != {pts[0]}", where)
             if kind == "genset" and p >= 0:
-                eg = float(obj.generator.get_efficiency_from_load_percentage(abs(p) / obj.generator.rated_power))
+                eg = float(obj.generator.get_efficiency_from_load_percentage(abs(p) / case["generator"]["rated"]))
                 if not close(pe * eg, p, scale=eng.rated_power):
                     ctx.fail("predicate", "engine-power-not-electric-over-efficiency", f"step {t}: engine {pe} x eff {eg} != {p}", where)
             if kind == "geared":
-                egb = float(obj.gearbox.get_efficiency_from_load_percentage(abs(p) / obj.rated_power))
+                egb = float(obj.gearbox.get_efficiency_from_load_percentage(abs(p) / eng_spec["rated"]))
                 if not close(pe * egb, p, scale=eng.rated_power):
                     ctx.fail("predicate", "engine-power-not-shaft-over-gearbox-efficiency", f"step {t}: engine {pe} x eff {egb} != {p}", where)
         elif kind == "fuel_cell_system":
             s = case["spec"]
-            ec = float(obj.converter.get_efficiency_from_load_percentage(abs(p) / obj.converter.rated_power)) if hasattr(obj, "converter") else 1.0
+            ec = float(obj.converter.get_efficiency_from_load_percentage(abs(p) / s["converter"]["rated"])) if hasattr(obj, "converter") else 1.0
             pc = p / ec / s["modules"]
-            ef = float(obj.fuel_cell.get_efficiency_from_load_percentage(abs(pc) / obj.fuel_cell.rated_power))
+            ef = float(obj.fuel_cell.get_efficiency_from_load_percentage(abs(pc) / s["fuel_cell"]["rated"]))
             want = pc / ef / lhv_of(s["fuel_cell"]["fuel_type"], s["fuel_cell"]["fuel_origin"]) / 1e6 * s["modules"]
             got = float(np.broadcast_to(fl[0][2], (n,))[t])
             if not close(got, want, scale=1e-3):
@@ -191,7 +193,7 @@ def run_case(ctx, case, model=True):
         else:
             cg = obj if kind == "cogas" else obj.cogas
             pc = float(np.broadcast_to(np.asarray(cg.power_output, dtype=float), (n,))[t])
-            ef = float(cg.get_efficiency_from_load_percentage(abs(pc) / cg.rated_power))
+            ef = float(cg.get_efficiency_from_load_percentage(abs(pc) / case["spec"]["cogas"]["rated"]))
             want = pc / ef / lhv_of(case["spec"]["cogas"]["fuel_type"], case["spec"]["cogas"]["fuel_origin"]) / 1e6
             got = float(np.broadcast_to(fl[0][2], (n,))[t])
             if not close(got, want, scale=1e-3):
@@ -199,11 +201,23 @@ def run_case(ctx, case, model=True):
             if rp.gas_turbine_power_kw is not None:
                 g = float(np.broadcast_to(np.asarray(rp.gas_turbine_power_kw, dtype=float), (n,))[t])
                 st = float(np.broadcast_to(np.asarray(rp.steam_turbine_power_kw, dtype=float), (n,))[t])
-                ratio = float(cg.power_ratio_gas_turbine_interpolator(pc / cg.rated_power))
+                ratio = float(cg.power_ratio_gas_turbine_interpolator(pc / case["spec"]["cogas"]["rated"]))
                 if not close(g + st, pc, scale=cg.rated_power):
                     ctx.fail("predicate", "turbine-powers-do-not-add-up", f"step {t}: {g} + {st} != {pc}", where)
                 if not close(g, ratio * pc, scale=cg.rated_power):
                     ctx.fail("predicate", "gas-turbine-power-not-share-times-power", f"step {t}: gas {g} != share {ratio} x {pc}", where)
+    # a generator behind a rectifier: at the tabulated loads the machine's efficiency is generator x rectifier, each at its own load
+    if kind == "genset" and case.get("rectifier"):
+        g0 = plants.build_machine(case["generator"], TypePower.POWER_SOURCE, 1)
+        r0 = plants.build_basic(dict(case["rectifier"], type="RECTIFIER"), 1, TypePower.POWER_SOURCE, "r")
+        for kx in range(1, 11):
+            pw = kx / 10.0 * case["generator"]["rated"]
+            want = float(g0.get_efficiency_from_load_percentage(pw / case["generator"]["rated"])) * \
+                float(r0.get_efficiency_from_load_percentage(pw / case["rectifier"]["rated"]))
+            got = float(obj.generator.get_efficiency_from_load_percentage(pw / case["generator"]["rated"]))
+            if abs(got - min(max(want, 0.01), 1.0)) > 1e-7:
+                ctx.fail("predicate", "generator-with-rectifier-not-product-of-stages", f"at {pw} kW: {got} != {want} (ratings {case['generator']['rated']}, {case['rectifier']['rated']})", where)
+                break
     # running hours through the per-component result
     if kind in ("genset", "geared", "fuel_cell_system", "coges") and not case["scalar"]:
         obj.power_output = P.copy()
@@ -242,8 +256,8 @@ def run_case(ctx, case, model=True):
                 if name == "eta_gb":
                     return raw_eta(obj.gearbox, key)[0]
                 return float(eng.emissions_g_per_kwh(EmissionType[name], x))
-            args = dict(p=enc(p), rated=enc(eng.rated_power), dual=bool(eng_spec.get("dual")), species=sp_names,
-                        generator_rated=enc(obj.generator.rated_power) if kind == "genset" else None,
+            args = dict(p=enc(p), rated=enc(eng_spec["rated"]), dual=bool(eng_spec.get("dual")), species=sp_names,
+                        generator_rated=enc(case["generator"]["rated"]) if kind == "genset" else None,
                         gearbox=True if kind == "geared" else None)
             ans, tables, rounds = call_with_oracle(ctx.model, "engine.engine", args, oracle)
             ctx.count("oracle_rounds", rounds)
@@ -268,7 +282,7 @@ def run_case(ctx, case, model=True):
                 if name == "eta_cell":
                     return raw_eta(obj.fuel_cell, key)[0]
                 return inv_value(obj.fuel_cell, float(key))[0]
-            args = dict(p=enc(p), rated_conv=enc(obj.rated_power), rated_cell=enc(obj.fuel_cell.rated_power),
+            args = dict(p=enc(p), rated_conv=enc(s["converter"]["rated"]), rated_cell=enc(s["fuel_cell"]["rated"]),
                         lhv=enc(lhv_of(s["fuel_cell"]["fuel_type"], s["fuel_cell"]["fuel_origin"])), modules=s["modules"])
             ans, tables, rounds = call_with_oracle(ctx.model, "engine.fuel_cell_system", args, oracle)
             ctx.count("oracle_rounds", rounds)
@@ -289,9 +303,9 @@ def run_case(ctx, case, model=True):
                 if name == "inv_gen":
                     return inv_value(obj.generator, x)[0]
                 return float(cg.emissions_g_per_kwh(EmissionType[name], x))
-            args = dict(p=enc(p), rated=enc(cg.rated_power), lhv=enc(lhv_of(cs["fuel_type"], cs["fuel_origin"])),
+            args = dict(p=enc(p), rated=enc(cs["rated"]), lhv=enc(lhv_of(cs["fuel_type"], cs["fuel_origin"])),
                         split=cs.get("gt_curve") is not None, species=[s_.name for s_ in rp.emissions_g_per_s],
-                        generator_rated=enc(obj.generator.rated_power) if kind == "coges" else None)
+                        generator_rated=enc(case["spec"]["generator"]["rated"]) if kind == "coges" else None)
             ans, tables, rounds = call_with_oracle(ctx.model, "engine.cogas", args, oracle)
             ctx.count("oracle_rounds", rounds)
             if not close(dec(ans["fuel"]), float(np.broadcast_to(fl[0][2], (n,))[t]), scale=1e-3):
